@@ -9,7 +9,38 @@ def run(tier, seed):
       rule=('RPC sequences in which the scripted algorithm raises (ValueError/RuntimeError/KeyError/AssertionError) at suggest or '
             'early-stop time with probability 0.35, or delivers 0..N+2 suggestions, each followed by further calls of the same and '
             'other workers; RAM and in-memory SQLite; non-trivial = at least 3 successful calls'),
-      monitors=[svcmon.c06_step, svcrun.wrap(svcmon.c01_step)], backends=('ram', 'sqlmem'), profile={'suggest': 0.45, 'fail': 0.35})
+      pre=svcrun.regenerate_handler_sources,
+      monitors=[svcmon.c06_step, svcrun.wrap(svcmon.c01_step)], backends=('ram', 'sqlmem'), profile={'suggest': 0.45, 'fail': 0.35}, extra=early_stop_shapes)
+
+
+def early_stop_shapes(rep, tier, seed, known, r):
+  """Systematic: every shape of an early-stopping answer - no decision, a decision for the checked trial, decisions for OTHER trials
+  only, for the checked and other trials, for a trial that does not exist, a failing algorithm - each followed by a second
+  check of the same trial by the same and another route: the operation must be finished and the later check must reach the
+  algorithm again (or be answered from a FINISHED operation when the recycle period has not passed)."""
+  from harness import svcmon
+  from harness import svc
+
+  def seqgen(rr):
+    i = seqgen.i
+    seqgen.i += 1
+    shapes = [[], [(1, True)], [(2, True)], [(2, False), (3, True)], [(1, False), (2, True)], [(9, True)], [(2, True), (9, False)], 'fail']
+    shape = shapes[i % len(shapes)]
+    recycle = (i // len(shapes)) % 2 == 0
+    oracle = ('fail', rr.choice(svc.FAIL_CLASSES)) if shape == 'fail' else ('decide', shape, [(':a', 'k', 0, 'v')] if rr.random() < 0.3 else [], [])
+    seq = [('CreateStudy', 1, 1, False, 'SS_ACTIVE', [(1, True)]),
+           ('SuggestTrials', 1, 1, 1, 3, ('deliver', [rr.randrange(100) for _ in range(3)], [], [])),
+           ('CheckEarlyStop', recycle, 1, 1, 1, oracle),
+           ('CheckEarlyStop', recycle, 1, 1, 1, ('decide', [(1, True)], [], [])),
+           ('CheckEarlyStop', recycle, 1, 1, 2, ('decide', [(2, False)], [], [])),
+           ('SuggestTrials', 1, 1, 2, 1, ('deliver', [rr.randrange(100)], [], [])),
+           ('CheckEarlyStop', recycle, 1, 1, 1, ('decide', [], [], [])),
+           ('CompleteTrial', 1, 1, 1, [(1, 1)], False),
+           ('ListTrials', 1, 1)]
+    return seq
+  seqgen.i = 0
+  return svcrun.service_part(rep, 'C06', r, tier, known, monitors=[svcmon.c06_step, svcrun.wrap(svcmon.c01_step)], backends=('ram', 'sqlmem'),
+                             nseq_quick=16, nseq_thorough=48, tag='es', seqgen=seqgen)
 
 
 def replay(path):
